@@ -241,11 +241,14 @@ pub fn cut_outcome(c: &CutCase) -> Outcome {
                     st.extend_from_slice(&[0x00, 0x0a, b'a', b'b', b'c']);
                     l.to_lib.deposit(&st);
                     l.to_lib.end_after_all(ReadEnd::Err(std::io::ErrorKind::ConnectionReset));
-                    l.from_lib.break_writer(std::io::ErrorKind::ConnectionReset);
                     let a = sim.attach(s, &l);
                     l.to_lib.deliver_all();
                     let _ = sim.settle().await;
-                    let _ = a;
+                    if !matches!(sim.out(a), Some(Out::Attach(Ok(_)))) {
+                        continue;
+                    }
+                    // (the library's own handshake is written before the write side breaks)
+                    l.from_lib.break_writer(std::io::ErrorKind::ConnectionReset);
                     extras.push(l);
                 }
                 if !extras.is_empty() {
@@ -311,6 +314,22 @@ pub fn cut_outcome(c: &CutCase) -> Outcome {
                             Ok(Some(Out::Recv(Err(e)))) => errs.push(e.text),
                             Ok(Some(_)) => unreachable!(),
                             Ok(None) => {
+                                // recv waits: then nothing a healthy peer has sent may be
+                                // outstanding (all of it has been delivered to the socket)
+                                let sent_total: usize = healthy_sent.iter().map(|v| v.len()).sum();
+                                let got_healthy = oks.iter().filter(|m| m.iter().any(|fr| { let t = if kind == Kind::XPub { fr.get(1..).unwrap_or(&[]) } else { &fr[..] }; t.starts_with(b"p") && !t.starts_with(b"p99-") && !t.starts_with(b"p98-") && t.contains(&b'|') })).count();
+                                if got_healthy < sent_total {
+                                    fail!(
+                                        f,
+                                        format!("C16/{}/{}/recv-waits-although-a-healthy-peers-message-is-available", who, ck),
+                                        "healthy peers have put {} complete messages on the wire, recv has returned {} of them and now waits with nothing waking it ({} connection(s) ended)",
+                                        sent_total,
+                                        got_healthy,
+                                        1 + extras.len()
+                                    );
+                                    sim.cancel(r);
+                                    return (f, classes);
+                                }
                                 sim.cancel(r);
                                 break;
                             }
@@ -581,7 +600,9 @@ pub fn cut_outcome(c: &CutCase) -> Outcome {
                     landed_on_victim
                 );
             }
-            if failed_sends_after_observed > 0 {
+            // (each further failing peer accounts for at most one failed send: that failure is
+            // how a sender notices it)
+            if failed_sends_after_observed > extras.len() {
                 fail!(
                     f,
                     format!("C16/{}/{}/send-routed-to-dead-peer-after-its-end-was-observed", who, ck),
